@@ -357,4 +357,18 @@ def cases(tier):
                 deadline_s=1800,
             )
         )
+    # "with or without qubit-order optimisation": the user's initial state is moved into site order with the
+    # same permutation as the Hamiltonian (shared with C03)
+    from harness.c03 import initial_state_permuted
+
+    out.append(
+        Case(
+            "initial_state_follows_the_ordering_n3",
+            initial_state_permuted(3),
+            covers=[("emu_mps/mps_backend_impl.py", "MPSBackendImpl.init_initial_state")],
+            bounds={"atoms": 3, "permutations": "all", "keys": "all pairs of basis strings"},
+            canaries=["inverse_perm"],
+            weight=90,
+        )
+    )
     return out
